@@ -78,6 +78,8 @@ def monSsSwap (amp : Nat) (decimals before : List Nat) (offerIdx askIdx offer gr
   -- 1 unit of rounding up + the recorded accuracy class of the quote (F-13: 16x the C19 bound +
   -- 10^-15 of the ask reserve)
   let tolUnits := 1 + 16 * (2 + 2 * ((gross + offer - 1) / (max offer 1))) + (before.getD askIdx 0) / 1000000000000000
-  if gross * scale ≤ exact + tolUnits * scale then some "C03-ss-rounding" else some "C03-ss-invariant"
+  -- … or a relative decrease of D below 10^-12 (solver accuracy on absurdly skewed pools)
+  if gross * scale ≤ exact + tolUnits * scale || (db - da) * 1000000000000 ≤ db then some "C03-ss-rounding"
+  else some "C03-ss-invariant"
 
 end MantraDex
